@@ -1,11 +1,192 @@
 package main
 
 import (
+	"flag"
 	"fmt"
+	"os"
+	"sort"
+	"strings"
+	"sync"
+	"time"
 
-	_ "golang.org/x/tools/go/packages"
-	_ "golang.org/x/tools/go/ssa"
-	_ "golang.org/x/tools/go/ssa/ssautil"
+	"golang.org/x/tools/go/ssa"
 )
 
-func main() { fmt.Println("govc") }
+func main() {
+	if len(os.Args) < 2 {
+		fmt.Fprintln(os.Stderr, "usage: govc <verify|check|loops|selftest> [flags]")
+		os.Exit(2)
+	}
+	switch os.Args[1] {
+	case "verify":
+		cmdVerify(os.Args[2:])
+	case "check":
+		cmdCheck(os.Args[2:])
+	case "loops":
+		cmdLoops(os.Args[2:])
+	default:
+		fmt.Fprintln(os.Stderr, "unknown command", os.Args[1])
+		os.Exit(2)
+	}
+}
+
+var allPatterns = []string{"./cmd/pint", "./internal/..."}
+
+func load(repo string) (*Program, error) {
+	p, err := loadProgram(repo, allPatterns, nil)
+	if err != nil {
+		return p, err
+	}
+	cs, err := loadContracts(repo)
+	if err != nil {
+		return p, err
+	}
+	p.contracts = cs
+	return p, nil
+}
+
+func (p *Program) lookupFunc(key string) *ssa.Function {
+	return p.funcByKey[key]
+}
+
+// runObligations decides all obligations with a worker pool.
+func runObligations(obls []*Obligation, timeoutS int, all bool, dump string, workers int) {
+	var wg sync.WaitGroup
+	ch := make(chan *Obligation)
+	for i := 0; i < workers; i++ {
+		wg.Add(1)
+		go func() {
+			defer wg.Done()
+			for ob := range ch {
+				decide(ob, timeoutS, all, dump)
+			}
+		}()
+	}
+	for _, ob := range obls {
+		ch <- ob
+	}
+	close(ch)
+	wg.Wait()
+}
+
+func cmdVerify(args []string) {
+	fs := flag.NewFlagSet("verify", flag.ExitOnError)
+	repo := fs.String("repo", "/repo", "repository root")
+	fnKey := fs.String("fn", "", "function keys (comma separated); empty = all contracts")
+	timeout := fs.Int("timeout", 10, "solver timeout (s)")
+	dump := fs.String("dump", "", "directory to dump SMT scripts")
+	all := fs.Bool("all-solvers", false, "run every solver")
+	verbose := fs.Bool("v", false, "verbose")
+	fs.Parse(args)
+	t0 := time.Now()
+	p, err := load(*repo)
+	if err != nil {
+		fmt.Fprintln(os.Stderr, "load:", err)
+		os.Exit(2)
+	}
+	fmt.Printf("loaded in %.1fs: %d pint functions, %d contracts, %d lemmas\n", time.Since(t0).Seconds(), len(p.allFuncs), len(p.contracts.funcs), len(p.contracts.lemmas))
+	want := map[string]bool{}
+	for _, k := range strings.Split(*fnKey, ",") {
+		if k != "" {
+			want[k] = true
+		}
+	}
+	var obls []*Obligation
+	var vcs []*VC
+	for _, fc := range p.contracts.funcs {
+		if len(want) > 0 && !want[fc.Key()] {
+			continue
+		}
+		if fc.Trusted {
+			continue
+		}
+		fn := p.lookupFunc(fc.Key())
+		if fn == nil {
+			fmt.Printf("UNBOUND contract %s (%s:%d)\n", fc.Key(), fc.File, fc.Line)
+			continue
+		}
+		vc := p.verifyFunction(fc, fn)
+		vcs = append(vcs, vc)
+		obls = append(obls, vc.obls...)
+	}
+	for _, l := range p.contracts.lemmas {
+		if len(want) > 0 && !want[l.Key()] {
+			continue
+		}
+		vc := p.verifyLemma(l)
+		vcs = append(vcs, vc)
+		obls = append(obls, vc.obls...)
+	}
+	for _, ce := range p.contractErrors {
+		fmt.Printf("CONTRACT-ERROR %s: %q: %s (%s:%d)\n", ce.Fn, ce.Clause, ce.Err, ce.File, ce.Line)
+	}
+	runObligations(obls, *timeout, *all, *dump, 16)
+	sort.SliceStable(obls, func(i, j int) bool { return obls[i].Name < obls[j].Name })
+	bad := 0
+	for _, ob := range obls {
+		ok := ob.Status == "discharged" || ob.Status == "cover-ok"
+		if !ok {
+			bad++
+		}
+		if *verbose || !ok {
+			fmt.Printf("%-14s %-70s %6.2fs %s  [%s] %s\n", ob.Status, ob.Name, ob.TimeS, ob.Solver, ob.Pos, trunc(ob.Clause, 80))
+			if !ok && ob.Model != nil && *verbose {
+				keys := sortedKeys(ob.Model)
+				for _, k := range keys {
+					if strings.HasPrefix(k, "v_p_") || strings.Contains(k, "_r0") {
+						fmt.Printf("      %s = %s\n", k, ob.Model[k])
+					}
+				}
+			}
+		}
+	}
+	for _, vc := range vcs {
+		for _, n := range vc.notes {
+			if *verbose {
+				fmt.Println("note:", n)
+			}
+		}
+	}
+	fmt.Printf("%d obligations, %d not ok, %.1fs\n", len(obls), bad, time.Since(t0).Seconds())
+	if bad > 0 || len(p.contractErrors) > 0 {
+		os.Exit(1)
+	}
+}
+
+func cmdLoops(args []string) {
+	fs := flag.NewFlagSet("loops", flag.ExitOnError)
+	repo := fs.String("repo", "/repo", "repository root")
+	fnKey := fs.String("fn", "", "function keys")
+	fs.Parse(args)
+	p, err := load(*repo)
+	if err != nil {
+		fmt.Fprintln(os.Stderr, "load:", err)
+		os.Exit(2)
+	}
+	for _, k := range strings.Split(*fnKey, ",") {
+		fn := p.lookupFunc(k)
+		if fn == nil {
+			fmt.Println("no such function:", k)
+			var cands []string
+			for key := range p.funcByKey {
+				if strings.Contains(key, k) {
+					cands = append(cands, key)
+				}
+			}
+			sort.Strings(cands)
+			fmt.Println("  candidates:", cands)
+			continue
+		}
+		li := analyseLoops(fn)
+		fmt.Printf("%s: %d loops\n", k, len(li.headers))
+		for i, h := range li.headers {
+			fmt.Printf("  loop %d: header block %d (%s) at %s, %d blocks\n", i+1, h.Index, h.Comment, p.pos(loopPos(li, h)), len(li.body[h]))
+		}
+		fmt.Printf("  writes: %v\n", p.modHeapsList(fn))
+	}
+}
+
+func cmdCheck(args []string) {
+	fmt.Fprintln(os.Stderr, "check: not implemented yet")
+	os.Exit(2)
+}
